@@ -117,10 +117,12 @@ CLAIMED.update({
               "runner.overwrite(bench.overwrite(group)); a counter replaces only its own kind; the ignore decision matches the statement for "
               "all flag/ignore combinations, also through the real run_bench_entry (bounded: skipped entries are painted as ignored and never "
               "invoked), as are run_bench_entry's thread-list normalisation for lists of two (0 -> parallelism, ascending, duplicates collapse) and "
-              "the runner's thread option winning over the entry's."),
-        note=("CLI flag / DIVAN_* env / builder populating the runner options (clap), attribute parsing (proc macro), thread-list "
-              "normalisation in run_bench_entry and the defaults are undecided here."),
-        technique="Kani complete (loop-free, full-domain) harnesses",
+              "the runner's thread option winning over the entry's. Verus also proves, for every ArgMatches, on the region of the real Divan::config_with_args that copies parsed arguments into the runner (verified in chunks of five statements and composed): each run-time option given (sample-count, sample-size, threads sorted and deduplicated, "
+              "min-time, max-time, skip-ext-time with or without value, the four counter flags, --ignored / --include-ignored) is stored as "
+              "Some(value) in its own field whatever the value, and an option not given leaves its field alone."),
+        note=("clap itself (flag names, value parsers, DIVAN_* environment fallbacks in src/cli.rs) is ASSUMED to deliver the parsed values; "
+              "attribute parsing (proc macro) and the documented defaults are undecided."),
+        technique="Kani complete (loop-free, full-domain) harnesses; Verus contract on a region of config_with_args with clap as an opaque stand-in",
         design_ref="5 C15"),
     "C18": dict(
         category="proof",
@@ -170,7 +172,7 @@ CLAIMED.update({
               "else the nearest enclosing group's, else false) holds - i.e. iff a run executes it; groups are never skipped themselves and the "
               "recursive call gets exactly the inherited setting (the recursive call is reasoned about through this same contract; path "
               "building and println! are pinned and dropped, termination not proved). A canary must fail. Kani: Divan::list_benches reaches "
-              "run_action with a list action (complete) and run_bench_entry with Action::List never invokes the benchmark function (bounded)."),
+              "run_action with a list action (complete) and run_bench_entry with Action::List never invokes the benchmark function (bounded). Verus also proves, for every ArgMatches, on the region of the real Divan::config_with_args that copies parsed arguments into the runner (verified in chunks of five statements and composed): --list selects a listing action, the terse one exactly with --format terse."),
         note=("The text of the lines, the --exact round trip and clap parsing are undecided. Both repaired defects are detected again if "
               "they return (the pre-fix signature of run_tree_list is handled as 'nothing inherited')."),
         technique="Verus loop invariant over a ghost event log on the extracted run_tree_list; Kani harnesses",
@@ -193,9 +195,9 @@ CLAIMED.update({
               "Bounded Kani harnesses on the real comparators: integer argument names (1-2 digits, optional minus) of different value compare "
               "numerically under the name and kind attributes and never reach the textual comparison (the repaired defect); location order of "
               "arguments is declaration order; each attribute list has the chosen attribute first and each once (complete). Thorough tier: "
-              "cmp_int / natural_cmp compare digit runs by value and natural_cmp is reflexive and antisymmetric on short strings."),
+              "cmp_int / natural_cmp compare digit runs by value and natural_cmp is reflexive and antisymmetric on short strings. Verus also proves, for every ArgMatches, on the region of the real Divan::config_with_args that copies parsed arguments into the runner (verified in chunks of five statements and composed): --sortr ATTR sets that attribute and the reverse flag, --sort ATTR that attribute ascending, sortr winning."),
         note=("str::parse::<f64> is stubbed to Err (CBMC cannot take dec2flt), so float names are not covered. The leaf comparisons under "
-              "EntryTree::cmp_by_attr (kind, display name, location, address) are assumed; --sortr and 'sorting only permutes' are undecided. "
+              "EntryTree::cmp_by_attr (kind, display name, location, address) are assumed; the use of the reverse flag in the sort call and 'sorting only permutes' are undecided. "
               "Category 'other' because the name comparators are bounded only; only cmp_by_attr and with_tie_breakers are proved."),
         technique="Verus contract on the real cmp_by_attr (proved) + bounded Kani harnesses on the name comparators (bounded stand-in)",
         design_ref="5 C16"),
